@@ -7,6 +7,10 @@ package main
 // programs outside the property's language (a Context value used twice), which
 // is what validates the aliasing model.  Monitor: inside the language the bytes
 // must equal the pure context of the variable's own derivation path.
+// Context methods are appends or Reset() (alone or inside UpdateContext); Level
+// copies carry a level, so that a path can be muted (Disabled) and re-enabled
+// further down: a muted logger must stay silent and an enabled one must emit
+// exactly the events at or above the level of its own path.
 
 import (
 	"bytes"
@@ -25,13 +29,26 @@ import (
 func main() { hlib.Main(map[string]func(*hlib.Ctx){"C05": run}) }
 
 type stmt struct {
-	K   string   `json:"k"` // root with op logger copy output update emit
-	X   int      `json:"x"`
-	Key string   `json:"key,omitempty"`
-	Val string   `json:"val,omitempty"`
-	KVs []string `json:"kvs,omitempty"` // update: k1,v1,k2,v2...
-	D   [][]byte `json:"-"`             // the deltas the model is given
-	Via int      `json:"via,omitempty"` // copy flavour
+	K     string   `json:"k"` // root with op reset logger copy output update emit
+	X     int      `json:"x"`
+	Key   string   `json:"key,omitempty"`
+	Val   string   `json:"val,omitempty"`
+	KVs   []string `json:"kvs,omitempty"` // update: k1,v1,k2,v2... in call order; the pair (resetKey, "") is a call of Reset()
+	D     [][]byte `json:"-"`             // op: the delta the model is given
+	Ops   []string `json:"-"`             // update: the context methods as the model is given them (CApp d | CReset)
+	Via   int      `json:"via,omitempty"` // copy flavour: 0 Level(Lvl) 1 Sample(nil) 2 Hook()
+	Lvl   int      `json:"-"`               // copy via 0: the level set
+	Level string   `json:"level,omitempty"` // the same, for the replay file
+	Muted bool     `json:"muted,omitempty"` // emit: the logger's path level is Disabled, nothing may come out (set by execute)
+}
+
+const resetKey = "<Reset()>"
+
+const wide = -128 // a level below every event level: the logger lets everything through
+
+// a Level copy
+func lcopy(x, lvl int) stmt {
+	return stmt{K: "copy", X: x, Via: 0, Lvl: lvl, Level: fmt.Sprintf("Level(%d)", lvl)}
 }
 
 type cell struct {
@@ -39,6 +56,7 @@ type cell struct {
 	ctx   zerolog.Context
 	log   *zerolog.Logger
 	pure  []byte // what this variable's context should be
+	lvl   int    // the minimum level of this variable's derivation path
 	live  bool
 	own   bool
 	nilc  bool
@@ -62,7 +80,7 @@ func member(pure []byte, k, v string) []byte {
 
 // execute runs the program on the real code; returns observations, whether it is in the property's language,
 // and whether it reuses a Context value (K1 shape)
-func execute(p []stmt) (obs [][]byte, want [][]byte, inLang bool, reuse bool) {
+func execute(p []stmt) (obs [][]byte, want [][]byte, inLang bool, reuse bool, lvlBad string) {
 	zerolog.SetGlobalLevel(zerolog.Level(-128))
 	defer zerolog.SetGlobalLevel(zerolog.DebugLevel)
 	w := &lastWriter{}
@@ -73,8 +91,8 @@ func execute(p []stmt) (obs [][]byte, want [][]byte, inLang bool, reuse bool) {
 		get := func() *cell { return &cells[s.X] }
 		switch s.K {
 		case "root":
-			l := zerolog.New(w).Level(zerolog.Level(-128))
-			cells = append(cells, cell{log: &l, live: true, nilc: true})
+			l := zerolog.New(w).Level(zerolog.Level(wide))
+			cells = append(cells, cell{log: &l, live: true, nilc: true, lvl: wide})
 		case "with":
 			c := get()
 			if !c.live || c.isCtx {
@@ -84,7 +102,7 @@ func execute(p []stmt) (obs [][]byte, want [][]byte, inLang bool, reuse bool) {
 			if len(pure) == 0 {
 				pure = []byte("{")
 			}
-			cells = append(cells, cell{isCtx: true, ctx: c.log.With(), pure: pure, live: true, own: true})
+			cells = append(cells, cell{isCtx: true, ctx: c.log.With(), pure: pure, live: true, own: true, lvl: c.lvl})
 		case "op":
 			c := get()
 			if !c.live {
@@ -95,7 +113,18 @@ func execute(p []stmt) (obs [][]byte, want [][]byte, inLang bool, reuse bool) {
 			}
 			d := member(c.pure, s.Key, s.Val)
 			s.D = [][]byte{d}
-			nc := cell{isCtx: true, ctx: c.ctx.Str(s.Key, s.Val), pure: append(append([]byte{}, c.pure...), d...), live: true, own: true}
+			nc := cell{isCtx: true, ctx: c.ctx.Str(s.Key, s.Val), pure: append(append([]byte{}, c.pure...), d...), live: true, own: true, lvl: c.lvl}
+			c.live = false
+			cells = append(cells, nc)
+		case "reset":
+			c := get()
+			if !c.live {
+				reuse = true
+			}
+			if !c.live || !c.own {
+				inLang = false
+			}
+			nc := cell{isCtx: true, ctx: c.ctx.Reset(), pure: []byte("{"), live: true, own: true, lvl: c.lvl}
 			c.live = false
 			cells = append(cells, nc)
 		case "logger":
@@ -109,39 +138,50 @@ func execute(p []stmt) (obs [][]byte, want [][]byte, inLang bool, reuse bool) {
 			l := c.ctx.Logger()
 			pure := c.pure
 			c.live = false
-			cells = append(cells, cell{log: &l, pure: pure, live: true, own: true})
+			cells = append(cells, cell{log: &l, pure: pure, live: true, own: true, lvl: c.lvl})
 		case "copy":
 			c := get()
 			var l zerolog.Logger
+			lvl := c.lvl
 			switch s.Via {
 			case 0:
-				l = c.log.Level(zerolog.Level(-128))
+				l = c.log.Level(zerolog.Level(s.Lvl))
+				lvl = s.Lvl
 			case 1:
 				l = c.log.Sample(nil)
 			default:
 				l = c.log.Hook()
 			}
-			cells = append(cells, cell{log: &l, pure: c.pure, live: true, nilc: c.nilc})
+			cells = append(cells, cell{log: &l, pure: c.pure, live: true, nilc: c.nilc, lvl: lvl})
 		case "output":
 			c := get()
 			l := c.log.Output(w)
-			cells = append(cells, cell{log: &l, pure: c.pure, live: true, own: !c.nilc, nilc: c.nilc})
+			cells = append(cells, cell{log: &l, pure: c.pure, live: true, own: !c.nilc, nilc: c.nilc, lvl: c.lvl})
 		case "update":
 			c := get()
 			if !c.own {
 				inLang = false
 			}
 			pure := append([]byte{}, c.pure...)
-			s.D = nil
+			s.Ops = nil
 			for j := 0; j+1 < len(s.KVs); j += 2 {
+				if s.KVs[j] == resetKey {
+					s.Ops = append(s.Ops, "CReset")
+					pure = []byte("{")
+					continue
+				}
 				d := member(pure, s.KVs[j], s.KVs[j+1])
-				s.D = append(s.D, d)
+				s.Ops = append(s.Ops, "CApp "+CoqBytes(d))
 				pure = append(pure, d...)
 			}
 			kvs := s.KVs
 			c.log.UpdateContext(func(cx zerolog.Context) zerolog.Context {
 				for j := 0; j+1 < len(kvs); j += 2 {
-					cx = cx.Str(kvs[j], kvs[j+1])
+					if kvs[j] == resetKey {
+						cx = cx.Reset()
+					} else {
+						cx = cx.Str(kvs[j], kvs[j+1])
+					}
 				}
 				return cx
 			})
@@ -153,12 +193,41 @@ func execute(p []stmt) (obs [][]byte, want [][]byte, inLang bool, reuse bool) {
 			c.log.Log().Send()
 			line := w.last
 			o := bytes.TrimSuffix(line, []byte("}\n"))
-			obs = append(obs, o)
-			pw := c.pure
-			if len(pw) == 0 {
-				pw = []byte("{")
+			s.Muted = c.lvl > int(zerolog.NoLevel)
+			if s.Muted {
+				// a muted logger reads no context at all: no observation (and no HEmit for the model)
+				if line != nil && lvlBad == "" {
+					lvlBad = fmt.Sprintf("statement %d: a logger whose path level is %d (Disabled) emitted %q through Log()", i, c.lvl, line)
+				}
+			} else {
+				obs = append(obs, o)
+				pw := c.pure
+				if len(pw) == 0 {
+					pw = []byte("{")
+				}
+				want = append(want, pw)
 			}
-			want = append(want, pw)
+			// the level of the derivation path: an event of level lv comes out iff lv >= that level, and
+			// carries the same context as the level-less event above
+			for lv := int(zerolog.TraceLevel); lv <= int(zerolog.PanicLevel) && lvlBad == ""; lv++ {
+				w.last = nil
+				c.log.WithLevel(zerolog.Level(lv)).Send()
+				switch {
+				case lv < c.lvl && w.last != nil:
+					lvlBad = fmt.Sprintf("statement %d: a logger whose path level is %d emitted the level-%d event %q", i, c.lvl, lv, w.last)
+				case lv >= c.lvl && w.last == nil:
+					lvlBad = fmt.Sprintf("statement %d: a logger whose path level is %d dropped a level-%d event", i, c.lvl, lv)
+				case lv >= c.lvl:
+					exp := []byte(fmt.Sprintf("{\"level\":%q", zerolog.Level(lv).String()))
+					if len(o) > 1 {
+						exp = append(append(exp, ','), o[1:]...)
+					}
+					exp = append(exp, "}\n"...)
+					if !bytes.Equal(exp, w.last) {
+						lvlBad = fmt.Sprintf("statement %d: the level-%d event reads %q, the level-less event of the same logger carried the context %q", i, lv, w.last, o)
+					}
+				}
+			}
 			cells = append(cells, cell{})
 		}
 	}
@@ -175,6 +244,7 @@ func progCoq(p []stmt) string {
 			n++
 		}
 	}
+	// (an emit through a muted logger reads nothing and is not part of the model's program)
 	var xs []string
 	for _, s := range p {
 		x := 0
@@ -188,6 +258,8 @@ func progCoq(p []stmt) string {
 			xs = append(xs, fmt.Sprintf("HWith %d", x))
 		case "op":
 			xs = append(xs, fmt.Sprintf("HOp %d %s", x, CoqBytes(s.D[0])))
+		case "reset":
+			xs = append(xs, fmt.Sprintf("HReset %d", x))
 		case "logger":
 			xs = append(xs, fmt.Sprintf("HLogger %d", x))
 		case "copy":
@@ -195,13 +267,11 @@ func progCoq(p []stmt) string {
 		case "output":
 			xs = append(xs, fmt.Sprintf("HOutput %d", x))
 		case "update":
-			ds := make([]string, len(s.D))
-			for i, d := range s.D {
-				ds[i] = CoqBytes(d)
-			}
-			xs = append(xs, fmt.Sprintf("HUpdate %d %s", x, CoqList(ds)))
+			xs = append(xs, fmt.Sprintf("HUpdate %d %s", x, CoqList(s.Ops)))
 		case "emit":
-			xs = append(xs, fmt.Sprintf("HEmit %d", x))
+			if !s.Muted {
+				xs = append(xs, fmt.Sprintf("HEmit %d", x))
+			}
 		}
 	}
 	return CoqList(xs)
@@ -211,8 +281,9 @@ func genProg(r *Rng, nonlinear bool, big bool) []stmt {
 	p := []stmt{{K: "root"}}
 	type vinfo struct {
 		isCtx, dead, own, slot, nilc bool
+		lvl                          int
 	}
-	vars := []vinfo{{nilc: true}}
+	vars := []vinfo{{nilc: true, lvl: wide}}
 	n := 6 + r.Intn(22)
 	seq := 0
 	pick := func(f func(v vinfo) bool) int {
@@ -239,16 +310,20 @@ func genProg(r *Rng, nonlinear bool, big bool) []stmt {
 		case c < 4: // With on a logger
 			x := pick(func(v vinfo) bool { return !v.isCtx })
 			p = append(p, stmt{K: "with", X: x})
-			vars = append(vars, vinfo{isCtx: true, own: true})
+			vars = append(vars, vinfo{isCtx: true, own: true, lvl: vars[x].lvl})
 		case c < 9: // context op
 			x := pick(func(v vinfo) bool { return v.isCtx && (!v.dead || nonlinear) })
 			if x < 0 {
 				continue
 			}
 			seq++
-			p = append(p, stmt{K: "op", X: x, Key: fmt.Sprintf("k%d", seq), Val: val()})
+			if r.Chance(12) { // Reset() instead of an appending method
+				p = append(p, stmt{K: "reset", X: x})
+			} else {
+				p = append(p, stmt{K: "op", X: x, Key: fmt.Sprintf("k%d", seq), Val: val()})
+			}
 			vars[x].dead = true
-			vars = append(vars, vinfo{isCtx: true, own: true})
+			vars = append(vars, vinfo{isCtx: true, own: true, lvl: vars[x].lvl})
 		case c < 12: // Logger()
 			x := pick(func(v vinfo) bool { return v.isCtx && (!v.dead || nonlinear) })
 			if x < 0 {
@@ -256,15 +331,26 @@ func genProg(r *Rng, nonlinear bool, big bool) []stmt {
 			}
 			p = append(p, stmt{K: "logger", X: x})
 			vars[x].dead = true
-			vars = append(vars, vinfo{own: true})
+			vars = append(vars, vinfo{own: true, lvl: vars[x].lvl})
 		case c < 14:
 			x := pick(func(v vinfo) bool { return !v.isCtx })
-			p = append(p, stmt{K: "copy", X: x, Via: r.Intn(3)})
-			vars = append(vars, vinfo{nilc: vars[x].nilc})
+			st := stmt{K: "copy", X: x, Via: r.Intn(3)}
+			lvl := vars[x].lvl
+			if st.Via == 0 {
+				// mostly wide open; otherwise an ordinary level, NoLevel, or Disabled (the path is muted until a
+				// later Level copy opens it again)
+				lvl = wide
+				if r.Chance(45) {
+					lvl = []int{-1, 0, 1, 2, 3, 5, 6, 7, 7, 7, 7}[r.Intn(11)]
+				}
+				st = lcopy(x, lvl)
+			}
+			p = append(p, st)
+			vars = append(vars, vinfo{nilc: vars[x].nilc, lvl: lvl})
 		case c == 14:
 			x := pick(func(v vinfo) bool { return !v.isCtx })
 			p = append(p, stmt{K: "output", X: x})
-			vars = append(vars, vinfo{own: !vars[x].nilc, nilc: vars[x].nilc})
+			vars = append(vars, vinfo{own: !vars[x].nilc, nilc: vars[x].nilc, lvl: vars[x].lvl})
 		case c < 17: // UpdateContext on an owner logger
 			x := pick(func(v vinfo) bool { return !v.isCtx && v.own })
 			if x < 0 {
@@ -272,8 +358,14 @@ func genProg(r *Rng, nonlinear bool, big bool) []stmt {
 			}
 			var kvs []string
 			for j := 1 + r.Intn(3); j > 0; j-- {
+				if r.Chance(12) { // the update function calls Reset() at this point
+					kvs = append(kvs, resetKey, "")
+				}
 				seq++
 				kvs = append(kvs, fmt.Sprintf("u%d", seq), val())
+			}
+			if r.Chance(4) { // ... or last, leaving an empty context
+				kvs = append(kvs, resetKey, "")
 			}
 			p = append(p, stmt{K: "update", X: x, KVs: kvs})
 			vars = append(vars, vinfo{slot: true})
@@ -296,6 +388,11 @@ func genProg(r *Rng, nonlinear bool, big bool) []stmt {
 	}
 	for _, x := range ls {
 		p = append(p, stmt{K: "emit", X: x})
+		if vars[x].lvl > int(zerolog.NoLevel) {
+			// a muted logger says nothing itself: what its path carries is read through a Level copy that opens it again
+			p = append(p, lcopy(x, []int{wide, wide, -1, 1, 4, 6}[r.Intn(6)]))
+			p = append(p, stmt{K: "emit", X: len(p) - 1})
+		}
 	}
 	return p
 }
@@ -316,7 +413,7 @@ func (h probeHook) Run(e *zerolog.Event, l zerolog.Level, m string) {
 }
 
 func run(c *Ctx) {
-	c.Res.Rule = "derivation programs in SSA form over With / context ops / Logger / Level|Sample|Hook copies / Output / UpdateContext / emit, random trees (6-28 statements, branching, events from every node in random order); 3 streams: inside the property's language, with large values (contexts beyond the 500-byte capacity), and non-linear (a Context value reused: outside the language, K1 shape); plus GetCtx probes through pooled helper events, Output keeping the Go context, and a concurrent run under the race detector. Non-trivial = at least 3 emits from at least 2 different arrays' worth of branches; distinct by program text"
+	c.Res.Rule = "derivation programs in SSA form over With / context ops / Logger / Level|Sample|Hook copies / Output / UpdateContext / emit, random trees (6-28 statements, branching, events from every node in random order); 3 streams: inside the property's language, with large values (contexts beyond the 500-byte capacity), and non-linear (a Context value reused: outside the language, K1 shape); context methods are appends or Reset() (on a Context value or inside the UpdateContext function); Level copies set wide / trace..panic / NoLevel / Disabled, every emit also sends one event per level trace..panic (emitted iff at or above the path's level, same context), a muted logger is read through a re-opening Level copy; directed sweeps: Reset() with live relatives (0/1/3 parent fields x Level|Sample|Hook|With|Output relatives x 4 update shapes x UpdateContext|Context value) and muted paths (Level(Disabled|NoLevel|warn|wide) before With() x 0/2 fields x With|Output owner x 3 update shapes x re-opening level); plus GetCtx probes through pooled helper events, Output keeping the Go context, and a concurrent run under the race detector. Non-trivial = at least 3 emits from at least 2 different arrays' worth of branches; distinct by program text"
 	c.OpenShards("From Verif Require Import Base.Prelude Misc.HlogHeap Heap.LoggerHeap Harness.C05H.", "list hstmt * list (list N)", "mismatches c05_run c05_eqb", 400)
 	n := 1500
 	if c.Thorough() {
@@ -324,7 +421,22 @@ func run(c *Ctx) {
 	}
 	k1seen := false
 	emitCase := func(p []stmt, modelToo bool) {
-		obs, want, inLang, reuse := execute(p)
+		obs, want, inLang, reuse, lvlBad := execute(p)
+		if lvlBad != "" && inLang {
+			c.Violate(Violation{Key: "level-of-path-wrong", Monitor: "path-level", Desc: lvlBad, Case: p})
+		}
+		for _, st := range p {
+			switch {
+			case st.K == "reset":
+				c.Hist("reset", "Context.Reset")
+			case st.K == "update" && strings.Contains(strings.Join(st.KVs, "\x00"), resetKey):
+				c.Hist("reset", "inside UpdateContext")
+			case st.K == "emit" && st.Muted:
+				c.Hist("emit", "muted")
+			case st.K == "emit":
+				c.Hist("emit", "read")
+			}
+		}
 		if modelToo {
 			os := make([]string, len(obs))
 			for i, o := range obs {
@@ -368,6 +480,126 @@ func run(c *Ctx) {
 		default:
 			emitCase(genProg(r, false, false), true)
 		}
+	}
+
+	// ---- Reset() while relatives are alive (directed, complete over the listed shapes) ----
+	// a With()-produced parent with 0/1/3 fields; relatives taken from it BEFORE the reset: header copies
+	// (Level / Sample / Hook share the parent's array), a With() child, an Output() child; then the parent's
+	// context is replaced through UpdateContext(func(c) { ... c.Reset() ... }) in four shapes; every relative
+	// must still emit the old fields, the parent the new ones; a relative taken AFTER the reset and one more
+	// append through the parent follow.  Same with the reset done on a Context value (With().Reset()...).
+	{
+		shapes := [][]string{
+			{resetKey, ""},
+			{resetKey, "", "t", "acme"},
+			{"a", "1", resetKey, "", "t", "acme"},
+			{resetKey, "", "t", "acme", "long", strings.Repeat("L", 40)},
+		}
+		nsweep := 0
+		for _, nf := range []int{0, 1, 3} {
+			for rel := 0; rel < 5; rel++ { // 0 Level 1 Sample 2 Hook 3 With child 4 Output child
+				for si, shape := range shapes {
+					for _, onValue := range []bool{false, true} {
+						p := []stmt{{K: "root"}, {K: "with", X: 0}}
+						for f := 0; f < nf; f++ {
+							p = append(p, stmt{K: "op", X: len(p) - 1, Key: fmt.Sprintf("svc%d", f), Val: fmt.Sprintf("region-%d", f)})
+						}
+						p = append(p, stmt{K: "logger", X: len(p) - 1})
+						parent := len(p) - 1
+						derive := func() int {
+							switch rel {
+							case 0:
+								p = append(p, lcopy(parent, 2))
+							case 1, 2:
+								p = append(p, stmt{K: "copy", X: parent, Via: rel})
+							case 3:
+								p = append(p, stmt{K: "with", X: parent})
+								p = append(p, stmt{K: "op", X: len(p) - 1, Key: "kid", Val: "1"})
+								p = append(p, stmt{K: "logger", X: len(p) - 1})
+							default:
+								p = append(p, stmt{K: "output", X: parent})
+							}
+							return len(p) - 1
+						}
+						r1 := derive()
+						r2 := derive()
+						p = append(p, stmt{K: "emit", X: r1})
+						target := parent
+						if onValue {
+							// the same calls on a Context value: q := parent.With()<shape>.Logger()
+							p = append(p, stmt{K: "with", X: parent})
+							for j := 0; j+1 < len(shape); j += 2 {
+								if shape[j] == resetKey {
+									p = append(p, stmt{K: "reset", X: len(p) - 1})
+								} else {
+									p = append(p, stmt{K: "op", X: len(p) - 1, Key: shape[j], Val: shape[j+1]})
+								}
+							}
+							p = append(p, stmt{K: "logger", X: len(p) - 1})
+							target = len(p) - 1
+						} else {
+							p = append(p, stmt{K: "update", X: parent, KVs: shape})
+						}
+						p = append(p, stmt{K: "emit", X: r1}, stmt{K: "emit", X: r2}, stmt{K: "emit", X: target}, stmt{K: "emit", X: parent})
+						late := len(p)
+						p = append(p, stmt{K: "copy", X: target, Via: 1 + si%2})
+						p = append(p, stmt{K: "update", X: target, KVs: []string{"after", "reset"}})
+						p = append(p, stmt{K: "emit", X: late}, stmt{K: "emit", X: target}, stmt{K: "emit", X: r2}, stmt{K: "emit", X: r1}, stmt{K: "emit", X: parent})
+						emitCase(p, true)
+						nsweep++
+					}
+				}
+			}
+		}
+		c.Res.ExtraCoverage["reset_sweep_programs"] = nsweep
+	}
+
+	// ---- muted paths (directed, complete over the listed shapes) ----
+	// base := root.Level(A) for A in Disabled / NoLevel / warn / wide; l := base.With()<0 or 2 fields>.Logger()
+	// (or that logger's Output() copy): the owner of its array, at level A; l.UpdateContext(...) in three shapes
+	// while muted; then the path is opened again with Level(C) and read there, through a With() child and an
+	// Output() child of the opened logger, and through l itself (silent iff A is Disabled).
+	{
+		nsweep := 0
+		for _, A := range []int{int(zerolog.Disabled), int(zerolog.NoLevel), int(zerolog.WarnLevel), wide} {
+			for _, nf := range []int{0, 2} {
+				for _, viaOutput := range []bool{false, true} {
+					for _, shape := range [][]string{{"req", "42"}, {"req", "42", "user", "u"}, {resetKey, "", "req", "42"}} {
+						for _, C := range []int{wide, int(zerolog.InfoLevel)} {
+							p := []stmt{{K: "root"}, lcopy(0, A), {K: "with", X: 1}}
+							for f := 0; f < nf; f++ {
+								p = append(p, stmt{K: "op", X: len(p) - 1, Key: fmt.Sprintf("svc%d", f), Val: "api"})
+							}
+							p = append(p, stmt{K: "logger", X: len(p) - 1})
+							l := len(p) - 1
+							if viaOutput {
+								p = append(p, stmt{K: "output", X: l})
+								l = len(p) - 1
+							}
+							p = append(p, stmt{K: "emit", X: l})
+							p = append(p, stmt{K: "update", X: l, KVs: shape})
+							p = append(p, lcopy(l, C))
+							open := len(p) - 1
+							p = append(p, stmt{K: "with", X: open})
+							p = append(p, stmt{K: "op", X: len(p) - 1, Key: "n", Val: "1"})
+							p = append(p, stmt{K: "logger", X: len(p) - 1})
+							kid := len(p) - 1
+							p = append(p, stmt{K: "output", X: open})
+							out := len(p) - 1
+							p = append(p, stmt{K: "emit", X: open}, stmt{K: "emit", X: kid}, stmt{K: "emit", X: out}, stmt{K: "emit", X: l})
+							// muted again below the opened logger, and opened once more
+							p = append(p, lcopy(kid, int(zerolog.Disabled)))
+							p = append(p, stmt{K: "emit", X: len(p) - 1})
+							p = append(p, lcopy(len(p)-2, C))
+							p = append(p, stmt{K: "emit", X: len(p) - 1})
+							emitCase(p, true)
+							nsweep++
+						}
+					}
+				}
+			}
+		}
+		c.Res.ExtraCoverage["muted_path_sweep_programs"] = nsweep
 	}
 
 	// ---- fat parents: a parent whose context outgrew the 500-byte buffer (so its array has spare capacity),
